@@ -42,10 +42,11 @@ CHECKS = {
              "flips sign with orientation and scales with s^3, normals are unit, orthogonal and follow the winding, qualities lie in (0,1] "
              "with 1 exactly for equilateral triangles (Weitzenboeck), areas scale with s^2 and qualities are invariant under every "
              "similarity (isometries characterised by preserved dot products; matrices with orthonormal columns, translations, scalings "
-             "proved to be such). tria_areas/area/volume/tria_normals/tria_qualities re-traced from source and bridged; all other "
-             "measures compared differentially.",
+             "proved to be such). tria_areas, area, volume, tria_normals, tria_qualities, centroid, normalize_, vertex_areas, "
+             "avg_edge_length, vertex_normals and normal_offset_ are re-traced from source on every run (np.bincount / np.add.at followed on the "
+             "expression DAG) and bridged to the model by proof; all measures are also compared differentially on whole meshes.",
         ref="DESIGN.md 6/C13",
-        note=NOTE + "vertex_areas, vertex_normals, avg_edge_length, centroid, normalize_, normal_offset_ are tied by the differential check only.",
+        note=NOTE + "the traced topology is the boundary of a generic tetrahedron; the generalisation to all meshes is sampled by the differential check.",
         technique="Lean 4 proof (real-algebra identities/inequalities) tied by tracing of the NumPy kernels on a symbolic closed mesh and differential driver"),
     "C09": dict(
         text="Theorems for every triangle index list with distinct vertices per triangle (no size bound): the stored adjacency entries are "
@@ -73,11 +74,12 @@ CHECKS = {
         text="Theorems: the backward-Euler matrix B + tA acts as form_B + t form_A; for every solver output satisfying (B+tA)u = b, symmetric "
              "constant-annihilating A (C01) gives 1^T B u = sum b (conservation; with the lumped diagonal B this is sum B_ii u_i and the seed "
              "vector sums to the number of distinct seeds); kernel entries are the spectral sums, symmetric in (p,q), and diagonal is the "
-             "kernel at p=q=x. The matrix/right-hand side handed to SuperLU are captured and compared with the model; kernel/diagonal "
-             "compared on random spectra and all argument shapes.",
+             "kernel at p=q=x. The matrix/right-hand side handed to SuperLU are captured and compared with the model; heat.kernel, "
+             "heat.diagonal and both avg_edge_length routines are re-traced from source on every run and bridged by proof, and compared on random "
+             "spectra and all argument shapes.",
         ref="DESIGN.md 6/C07",
         note=NOTE + "SuperLU exact solve assumed (monitored); additivity/similarity clauses are corollaries of linearity and C04 evaluated by the oracle; aniso option not modelled.",
-        technique="Lean 4 proof (finite sums over triplet lists, relative to the solve contract) tied by captured-argument comparison and differential driver"),
+        technique="Lean 4 proof (finite sums over triplet lists, relative to the solve contract) tied by symbolic tracing of kernel/diagonal/avg_edge_length, captured-argument comparison and differential driver"),
     "C12": dict(
         text="Theorems for every vertex map and tetra list: is_oriented iff all signed volumes positive (non-empty mesh); orient_ swaps vertices "
              "1,2 of exactly the negative tetrahedra, returns their count, keeps vertex sets and order, yields an oriented mesh when no "
@@ -175,10 +177,11 @@ CHECKS = {
              "to constants; the smoothing operator has weights 1/deg on the edge neighbours (the area factors cancel): non-negative, rows sum "
              "to one, linear, fixes constants, stays in [min f, max f], smooth(f,n) is n applications (n=0 applies once), smooth_ replaces "
              "only the vertices. The clause 'map_tfunc_to_vfunc maps constants to constants' is FALSE (recorded finding F9): proved "
-             "t2v_const_partial (c*incidence/3), t2v_const_iff and a concrete counter-example. All three routines compared with the model.",
+             "t2v_const_partial (c*incidence/3), t2v_const_iff and a concrete counter-example. map_tfunc_to_vfunc (plain, weighted, one and two "
+             "columns) and map_vfunc_to_tfunc are re-traced from source on every run and bridged by proof; all routines compared with the model.",
         ref="DESIGN.md 6/C15",
-        note=NOTE + "map_tfunc_to_vfunc / smooth_vfunc are tied by the differential check only (np.add.at and sparse products are not traceable).",
-        technique="Lean 4 proof (column-wise reduction to scalar sums, convexity of the row-stochastic operator, induction on iterations) tied by differential driver"),
+        note=NOTE + "smooth_vfunc / smooth_ are tied by the differential check only (sparse products are not traceable).",
+        technique="Lean 4 proof (column-wise reduction to scalar sums, convexity of the row-stochastic operator, induction on iterations) tied by symbolic tracing of the transfer routines and differential driver"),
     "C19": dict(
         text="PARTIAL. Proved: normalize_ is v -> (v - c)/sqrt(area), yielding area 1 and centroid 0 (similarity laws of area and centroid); "
              "the flow step system M + step*A0 is positive definite (unique solution) and fixes every V with A0 V = 0; radial projection "
@@ -196,10 +199,11 @@ CHECKS = {
              "level_path stores one point per crossed edge, has the same length, raises ValueError unless the segment graph has exactly two "
              "end points, orders the points by breadth-first distance — for a simple path exactly the path order with the right triangle per "
              "segment —, drops points closer than 1e-3 to their successor but never the last; np.interp / resampling keep the end points "
-             "and sample at equal arc length. Compared with the implementation on all families. Assumed: csgraph.shortest_path = BFS distances.",
+             "and sample at equal arc length. level_length is re-traced from source on every run for two crossing patterns (concolic path "
+             "conditions) and bridged by proof; everything is compared with the implementation on all families. Assumed: csgraph.shortest_path = BFS distances.",
         ref="DESIGN.md 6/C16",
         note=NOTE + "three-fold re-resampling only approximates equal spacing along the original curve; shortest_path contract assumed.",
-        technique="Lean 4 proof (case analysis on sign patterns, barycentric algebra, BFS induction on simple paths) tied by differential driver"),
+        technique="Lean 4 proof (case analysis on sign patterns, barycentric algebra, BFS induction on simple paths) tied by concolic tracing of level_length and differential driver"),
     "C17": dict(
         text="PARTIAL. Theorems relative to an orthonormal eigenbasis from the external eig: c_min <= c_max, mean and Gauss are the symmetric "
              "functions, u_min/u_max/normal orthonormal, right-handed (triple product 1) and on the side of the vertex normal (degenerate "
